@@ -451,9 +451,13 @@ PLACEMENTS = {
     'fn_cdeco': [('fn', 'outer'), ('cls', 'C', True)],
     'fn_cdeco2': [('fn', 'outer'), ('cls', 'C', True), ('cls', 'D', False)],
     'clo2_meth': [('fn', 'outer'), ('fn', 'mid'), ('cls', 'C', False)],
+    # three classes deep (the class stack handed down by a whole-class decoration grows with every level)
+    'cdeco3': [('cls', 'C', True), ('cls', 'D', False), ('cls', 'E', False)],
+    'fn_cdeco3': [('fn', 'outer'), ('cls', 'C', True), ('cls', 'D', False), ('cls', 'E', False)],
+    'fn_meth3': [('fn', 'outer'), ('cls', 'C', False), ('cls', 'D', False), ('cls', 'E', False)],
 }
 PLACEMENT_WEIGHTS = {'mod': 3, 'meth': 3, 'meth2': 1, 'cdeco': 2, 'cdeco2': 1, 'cdeco_in': 1, 'clo1': 3, 'clo2': 2,
-                     'fn_meth': 1, 'fn_cdeco': 1, 'fn_cdeco2': 1, 'clo2_meth': 1}
+                     'fn_meth': 1, 'fn_cdeco': 1, 'fn_cdeco2': 1, 'clo2_meth': 1, 'cdeco3': 1, 'fn_cdeco3': 1.5, 'fn_meth3': 0.5}
 
 SHAPES1 = {
     'bare': lambda a: a,
